@@ -202,6 +202,9 @@ def check(ctx, prefixes=SCOPE_PREFIXES, P="C11", ids=None):
                             ctx.check(kind == ALIASED, "C11.R2", f"{v.qualname}:children-key", n,
                                       f"field-validator error relocated under `{norm(k)}` ({kind}), not under aliaser(alias)", v, n, detail="aliaser(getattr(get_alias(owner), field name))")
         ctx.require(found, "validator error relocation site not found in validate()")
+        ga = [c for c in ast.walk(v.node) if isinstance(c, ast.Call) and dotted(c.func) == "get_alias"]
+        ctx.check(len(ga) == 1 and [norm(a) for a in ga[0].args] == [v.params[0]], "C11.R2", f"{v.qualname}:alias-of-validated-class", ga[0] if ga else v.node.body[0],
+                  f"the alias of a field validator's field is taken from `{norm(ga[0].args[0]) if ga and ga[0].args else '?'}` instead of the validated object: an inherited validator then reports under the alias of the class that defines it, ignoring the class aliaser (or alias overrides) of the subclass being validated", v, v.node, detail="get_alias(obj)")
 
     # ---------------- R3: class aliaser once
     if P == "C11":
@@ -404,6 +407,7 @@ def fixtures(ctx):
 
 
 def mutants(mb):
+    mb.add_text("validator-alias-of-owner", "apischema/validation/validators.py", "            alias = getattr(get_alias(obj), get_field_name(validator.field))\n", "            alias = getattr(get_alias(validator.owner), get_field_name(validator.field))\n", "C11.R2", "alias-of-validated-class")
     mb.add_text("apply-aliaser-flag-overwritten", "apischema/validation/errors.py", "        aliased |= child2 is not child\n", "        aliased = child2 is not child\n", "C11.R5", "monotone")
     mb.add_text("deser-field-slot-alias", "apischema/deserialization/__init__.py", "                        Field(\n                            field.name,\n", "                        Field(\n                            field.alias,\n", "C11.R6", "Field.name")
     mb.add_text("ser-field-slot-alias", "apischema/serialization/__init__.py", "                base_field = ComplexField(\n                    field.name,\n", "                base_field = ComplexField(\n                    field.alias,\n", "C11.R6", ".name")
